@@ -92,3 +92,26 @@ func (s *Subscription) VerifReady() bool {
 		item = next
 	}
 }
+
+// VerifSubscribePath reads, from the publisher's state, which way Subscribe will go for req:
+// "err" (unknown topic / unsupported wildcard), "resume" (the head of the topic buffer carries
+// req.Index), "cache" (a usable cached snapshot exists) or "build" (a fresh snapshot).
+func (e *EventPublisher) VerifSubscribePath(req *SubscribeRequest) string {
+	e.lock.Lock()
+	defer e.lock.Unlock()
+	if _, ok := e.snapshotHandlers[req.Topic]; !ok || req.Topic == nil {
+		return "err"
+	}
+	if req.Subject == SubjectWildcard {
+		if _, ok := e.wildcards[req.Topic]; !ok {
+			return "err"
+		}
+	}
+	if tb, ok := e.topicBuffers[req.topicSubject()]; ok && req.Index > 0 && tb.buf.Head().HasEventIndex(req.Index) {
+		return "resume"
+	}
+	if snap, ok := e.snapCache[req.topicSubject()]; ok && snap.err() == nil {
+		return "cache"
+	}
+	return "build"
+}
